@@ -165,22 +165,21 @@ Definition sfuel (sigma : subst) (es : list axis) : nat :=
 (** [offset += o * n; stride[k] += s[k] * n] for every dimension; the new axes are the keys of the
     stride dict = the free axes in order of first occurrence ([fv_list], which also knows their
     sizes: a [PhysicalAxis] carries [_numel], the model's stride dict only the uid).  The fast path
-    (no substitution, distinct physical axes: the tensor itself is returned) computes the same view;
-    it only matters for [requires_grad]: a view made by [as_strided] under [torch.no_grad()] does
-    not require grad. *)
-Definition project_view (genabled : bool) (sigma : subst) (t : stensor) : res view :=
+    (no substitution, distinct physical axes: the tensor itself is returned) computes the same view.
+    An [as_strided] view of a tensor that requires grad requires grad as well, also under
+    [torch.no_grad()]. *)
+Definition project_view (sigma : subst) (t : stensor) : res view :=
   let ps := paxes (st_pt t) in
   let fuel := sfuel sigma (phys_axes ps) in
   strs <- mapM (stride fuel sigma) (phys_axes ps) ;;
   vars <- fv_list fuel sigma (phys_axes ps) ;;
   let merged := fold_left (fun acc sm => lin_merge acc (lin_scale (snd sm) (snd (fst sm))))
                           (combine strs (st_pstr t)) [] in
-  let fast := (match sigma with [] => true | _ => false end) && nodup_pos (map fst ps) in
   Ok (mkView (fun coords =>
                 let rho := env_of (combine (map fst vars) coords) in
                 physical (st_pt t) (map (fun os => fst os + lin_eval rho (snd os)) strs))
              (map (fun kn => (kn, lin_coeff merged (fst kn))) vars)
-             (if fast then st_rg t else st_rg t && genabled)).
+             (st_rg t)).
 
 (** * the einsum over the physical variables *)
 Definition plabel (kn : pn) : nat := Pos.to_nat (fst kn).
@@ -281,7 +280,7 @@ Definition einsum_run (veqb : R -> R -> bool) (genabled : bool) (next : positive
   let nx := us_next (ls_u s) in
   let zr := fst (pt_full R (map numel outv) r0 nx) in            (* zero_result() *)
   if ls_zero s then Ok (mkRun fts sigma (ls_i2v s) outv true [] false [] nx zr) else
-  views <- mapM (project_view genabled sigma) fts ;;
+  views <- mapM (project_view sigma) fts ;;
   if existsb (fun d => Nat.eqb (snd (fst d)) 0) (flat_map vw_dims views)
   then Ok (mkRun fts sigma (ls_i2v s) outv false views true [] nx zr) else
   outp <- fv_list (sfuel sigma outv) sigma outv ;;
